@@ -195,10 +195,11 @@ impl DenominationStrategy for CanonicalOneTwoFive {
                 break 0;
             }
             let fits = prep_tx_count(&typed(&notes)).filter(|&n| {
-                notes
-                    .iter()
-                    .sum::<u64>()
-                    .checked_add(n as u64 * prep_tx_fee_zatoshi)
+                // A transaction count whose fees do not even fit in a `u64` does not fit the
+                // balance either.
+                (n as u64)
+                    .checked_mul(prep_tx_fee_zatoshi)
+                    .and_then(|fees| notes.iter().sum::<u64>().checked_add(fees))
                     .is_some_and(|c| c <= total_input_zatoshi)
             });
             match fits {
